@@ -87,7 +87,17 @@ func (o OneOfSchema[KeyType]) UnserializeType(data any) (result any, err error) 
 		}
 	}
 
-	discriminatorValue := reflectedValue.MapIndex(reflect.ValueOf(o.DiscriminatorFieldNameValue))
+	discriminatorKey := reflect.ValueOf(o.DiscriminatorFieldNameValue)
+	if !discriminatorKey.Type().AssignableTo(reflectedValue.Type().Key()) {
+		// A map whose keys cannot be strings (e.g. map[int64]any) cannot hold the discriminator field.
+		return result, &ConstraintError{
+			Message: fmt.Sprintf(
+				"Invalid key type for one-of: '%s'. Expected string keys.",
+				reflectedValue.Type().Key().String(),
+			),
+		}
+	}
+	discriminatorValue := reflectedValue.MapIndex(discriminatorKey)
 	if !discriminatorValue.IsValid() {
 		return result, &ConstraintError{
 			Message: fmt.Sprintf("Missing discriminator field '%s' in '%v'", o.DiscriminatorFieldNameValue, data),
